@@ -774,7 +774,7 @@ fn gen_bworld(rng: &mut Rng) -> BWorld {
     let counter = vec![0x60, 0x00, 0x54, 0x60, 0x01, 0x01, 0x60, 0x00, 0x55, 0x00];
     db.put_code(t_addr(0), U256::from(5), 1, Bytecode::new_raw(counter.into()));
     db.storage.insert((t_addr(0), U256::ZERO), U256::from(10));
-    db.put_eoa(t_addr(1), U256::from(1000), 0);
+    db.put_eoa(t_addr(1), U256::from(1000), 1); // nonce 1: revm treats a nonce-0 codeless account as having no storage in the database
     db.put_eoa(t_addr(2), U256::from(7), 0);
     db.storage.insert((t_addr(1), U256::from(1)), U256::from(33));
     for i in 0..4 {
